@@ -204,6 +204,9 @@ ANGLE_FORMS = {
     "pi * a": lambda a, b: a,
     "pi / 4 + angle(a)": lambda a, b: 0.25 + a,
     "angle(a + b)": lambda a, b: a + b,
+    "b / angle(a)": lambda a, b: (b / a) if a != 0 else None,          # reflected division (angle.__rtruediv__)
+    "angle(a) - angle(b) * 0.5": lambda a, b: a - b * 0.5,
+    "-(angle(a) + pi)": lambda a, b: -(a + 1.0),
 }
 
 
@@ -222,6 +225,8 @@ def item_angle(it):
     for a in LIT_ANGLES:
         for b in (2.0, -0.5):
             ht = ANGLE_FORMS[form](a, b)
+            if ht is None:
+                continue
             mat = build(*([ht * math.pi] + [0.5 * math.pi] * (na - 1)))
             d = check_unitary(h, "main", lambda v: apply(mat, qubits, v), extra=(float(a), float(b)))
             n += 9
